@@ -106,6 +106,9 @@ class PlantedAlign(Stream):
     def impl(self, case):
         return pl.run_align(case)
 
+    def tolerated(self, case, out):
+        return bool(out.get('float_flip'))
+
     def term(self, case, out):
         return pl.align_term(case, out)
 
